@@ -304,7 +304,12 @@ func GenFuzz(r *rand.Rand, n int) []*Scenario {
 	nC := n * 22 / 100
 	var cs []*fzCase
 	cs = append(cs, fzCorpus()...)
+	// the systematic one-bad-argument part: its fixed core plus a seeded sample (a sixth of the budget)
+	cs = append(cs, fzSystematicSample(rand.New(rand.NewSource(r.Int63())), n/6)...)
 	nA := n - nCtl - nB - nC - len(cs)
+	if nA < n/5 {
+		nA = n / 5
+	}
 	cs = append(cs, fzLevelA(rand.New(rand.NewSource(r.Int63())), nA)...)
 	cs = append(cs, fzLevelB(rand.New(rand.NewSource(r.Int63())), nB)...)
 	cs = append(cs, fzLevelC(rand.New(rand.NewSource(r.Int63())), nC)...)
